@@ -81,7 +81,11 @@ func VerifC06Name(src, h1, h2, ne int) {
 	default:
 		got, hostE, macE = nt.NBNSName, host.NBNSName, host.MACEntry.NBNSName
 	}
-	verifAssert(verifAttrsEq(got, hostE) || verifAttrsEq(got, macE), "C06:name-notification-names-equal-tracked-state")
+	if src == 3 { // LLMNR names are per host (toNotification documents: the MAC entry's names for the other sources)
+		verifAssert(verifAttrsEq(got, hostE) || verifAttrsEq(got, macE), "C06:name-notification-names-equal-tracked-state")
+	} else {
+		verifAssert(verifAttrsEq(got, macE), "C06:name-notification-names-equal-tracked-state")
+	}
 	if n.Name != "" {
 		verifAssert(got.Name == n.Name, "C06:name-notification-carries-the-learned-name")
 	}
